@@ -564,7 +564,7 @@ fn gen_int(rng: &mut Rng, w: IntW) -> SD {
     if w.signed() { SD::I(x as i64) } else { SD::U(x as u64) }
 }
 fn gen_finite64(rng: &mut Rng) -> f64 {
-    loop { let x = match rng.below(4) { 0 => *rng.pick(&[0.0, 1.0, -1.5, 1e21, 1e-7, f64::MAX, 5e-324, 0.1, 3.0, 1e16, 255.0, -128.0]), _ => f64::from_bits(rng.next()) }; if x.is_finite() { return x; } }
+    loop { let x = match rng.below(5) { 0 => *rng.pick(&[0.0, 1.0, -1.5, 1e21, 1e-7, f64::MAX, 5e-324, 0.1, 3.0, 1e16, 255.0, -128.0, f64::EPSILON]), 1 => f64::from(gen_finite32(rng)), _ => f64::from_bits(rng.next()) }; if x.is_finite() { return x; } }
 }
 fn gen_finite32(rng: &mut Rng) -> f32 {
     loop { let x = match rng.below(4) { 0 => *rng.pick(&[0.0, 1.0, -1.5, 3.4028235e38, 1e-45, 0.1, 16777216.0, 7.0]), _ => f32::from_bits(rng.next() as u32) }; if x.is_finite() { return x; } }
